@@ -239,6 +239,7 @@ type Server struct {
 	idleWaiters   []*vsched.Thread
 	registered    bool
 	completed     int
+	onShutdown    []func()
 }
 
 func (srv *Server) init() {
@@ -384,6 +385,9 @@ func (srv *Server) Shutdown(ctx context.Context) error {
 	for l := range srv.listeners {
 		n.unbind(l, "Shutdown")
 	}
+	for _, f := range srv.onShutdown {
+		vsched.Go(f) // `go f()` in net/http: nobody waits for it
+	}
 	vsched.Sync("Shutdown:listenerGroup.Wait")
 	for srv.listenerGroup > 0 {
 		srv.lgWaiters = append(srv.lgWaiters, t)
@@ -426,7 +430,9 @@ func (srv *Server) Close() error {
 	return nil
 }
 
-func (srv *Server) RegisterOnShutdown(f func()) {}
+// RegisterOnShutdown: net/http starts every registered function in its own goroutine after the listeners
+// have been closed (Shutdown only; Close does not run them).
+func (srv *Server) RegisterOnShutdown(f func()) { srv.onShutdown = append(srv.onShutdown, f) }
 
 // ---- clients ---------------------------------------------------------------------
 
